@@ -121,6 +121,29 @@ class SubInterp:
                 elem_name = tgt.elts[1].id
                 if isinstance(tgt.elts[0], ast.Name):
                     env[tgt.elts[0].id] = ("OTHER",)
+        elif (
+            isinstance(it, ast.Call) and dotted(it.func) == "zip" and it.args and not it.keywords
+            and isinstance(tgt, ast.Tuple) and len(tgt.elts) == len(it.args)
+        ):
+            # zip walks its arguments in step (stopping at the shortest): the
+            # component drawn from a sub-list is an element of it, in order
+            vals = [self.eval(a, env) for a in it.args]
+            pick = next((i for i, v in enumerate(vals) if is_sub(v) and v[0] != "BAD"), None)
+            for i, t in enumerate(tgt.elts):
+                if i != pick:
+                    for n in ast.walk(t):
+                        if isinstance(n, ast.Name):
+                            env[n.id] = ("OTHER",)
+            if pick is not None and isinstance(tgt.elts[pick], ast.Name):
+                src = it.args[pick]
+                elem_name = tgt.elts[pick].id
+            else:
+                k = counters.get(id(st), 0)
+                counters[id(st)] = k + 1
+                for n in ast.walk(tgt):
+                    if isinstance(n, ast.Name):
+                        env[n.id] = ("OTHER",)
+                return
         elif isinstance(tgt, ast.Name):
             elem_name = tgt.id
         v = self.eval(src, env)
